@@ -10,8 +10,10 @@ function `Book.update`); each monitor is the bookkeeping plus one check (`ofChec
 
 * `monC11set`  — of all `SetResult` calls on one promise exactly the first returns true, and an
                  await completing by result returns that call's value and error;
-* `monC11why`  — an await that returns without a result has a reason: its context was cancelled or
-                 its own channel fired (and it returns what that channel dictates);
+* `monC11why`  — an await that returns without a result has a reason: its context was cancelled, its own
+                 channel fired (and it returns what that channel dictates), or the promise was constructed
+                 pre-resolved by `NewPromiseWithErr(e)` (then it returns `(zero, e)`); and
+                 `promise.CheckPromiseLike` reports no misbehaviour;
 * `monC11cur`  — a container awaiter returns the result of a promise that was current during the call,
                  after the last quiescence point at which it was still pending (there it had observed every
                  earlier replacement: the result of a promise removed before that point is not accepted)
@@ -49,7 +51,8 @@ structure Book where
   calls : List Call := []
   nproms : Nat := 0
   initDead : Bool := false            -- the initial (empty) content is certainly overwritten
-  pubP : List Nat := []               -- plain promises known to be resolved (a SetResult returned true / an await returned its result)
+  pubP : List Nat := []               -- plain promises known to be resolved (a SetResult returned true / an await returned its result / born resolved)
+  bornP : List (Nat × Err) := []      -- promises constructed pre-resolved by NewPromiseWithErr(e): they hold (zero, e)
 deriving Repr
 
 /-- what a container writer call stores -/
@@ -101,6 +104,8 @@ def Book.resetSeen (b : Book) (B : List Nat) : Book :=
 
 def Book.update (b : Book) : Obs → Book
   | .newp _ => { b with nproms := b.nproms + 1 }
+  | .newpe p e => { b with nproms := b.nproms + 1, pubP := p :: b.pubP, bornP := (p, e) :: b.bornP }
+  | .checkLike _ _ => b
   | .invSet _ p _ e => { b with calls := b.calls ++ [{ kind := .set p e }] }
   | .invAwait _ p k => { b with calls := b.calls ++ [{ kind := .await p k }] }
   | .invCAwait _ k => { b with calls := b.calls ++ [{ kind := .cawait k, seen := b.candidates }] }
@@ -142,6 +147,7 @@ def ofCheck (chk : Book → Obs → Bool) : ObsMonitor Obs Book where
 structure PW where
   won : Option Nat := none            -- the call known to have won
   cands : Option (List Nat) := none   -- if some: the winner is one of these calls
+  born : Bool := false                -- constructed pre-resolved: every SetResult on it returns false
 deriving DecidableEq, Repr, Inhabited
 
 structure SetSt where
@@ -167,7 +173,7 @@ def lostCands (b : Book) (i : PW) (p t : Nat) : List Nat :=
 def winBy (ms : SetSt) (p w : Nat) : Option SetSt :=
   match ms.pw[p]? with
   | some i =>
-    if (i.won = none ∨ i.won = some w) ∧ i.cands.all (·.contains w) = true then
+    if i.born = false ∧ (i.won = none ∨ i.won = some w) ∧ i.cands.all (·.contains w) = true then
       some { ms with pw := ms.pw.set p { i with won := some w } }
     else none
   | none => none
@@ -178,6 +184,7 @@ def monC11set : ObsMonitor Obs SetSt where
     let next : SetSt → Option SetSt := fun m => some { m with b := m.b.update o }
     match o with
     | .newp _ => next { ms with pw := ms.pw ++ [{}] }
+    | .newpe _ _ => next { ms with pw := ms.pw ++ [{ born := true }] }
     | .retPanic _ => none
     | .retSet t r =>
       match ms.b.calls[t]? with
@@ -187,7 +194,8 @@ def monC11set : ObsMonitor Obs SetSt where
           if r then (winBy ms p t).bind next
           else match ms.pw[p]? with
             | some i =>
-              if i.won = some t then none
+              if i.born then next { ms with lost := t :: ms.lost }
+              else if i.won = some t then none
               else if i.won.isSome then next { ms with lost := t :: ms.lost }
               else
                 let L := lostCands ms.b i p t
@@ -220,10 +228,11 @@ def chkWhy (b : Book) : Obs → Bool
     if v ≠ 0 then true else
     match b.calls[t]? with
     | some c => match c.kind with
-      | .await _ k => (e = .canceled && c.cx) || usrPlain k c.ch = some (0, e)
+      | .await p k => (e = .canceled && c.cx) || usrPlain k c.ch = some (0, e) || b.bornP.contains (p, e)
       | .cawait k => (e = .canceled && c.cx) || usrNil k c.ch = some (0, e)
       | _ => false
     | none => false
+  | .checkLike good ok => ok == good   -- promise.CheckPromiseLike accepts the real implementations and rejects the wrong fakes
   | _ => true
 
 /-- a container awaiter's result belongs to a promise that was current during the call -/
